@@ -66,6 +66,8 @@ BytesFails(e) ==
        ELSE <<>>)
    \* the same string decoded into a variable that held other frames before re-encodes to the string as well
    \o (IF acc /\ MHDRRFUZero(e.bytes) /\ Has(e, "serr") /\ e.rerr = "" /\ (e.serr # "" \/ e.sre # e.bytes) THEN <<"C08.reencode">> ELSE <<>>)
+   \* the value kept of the PREVIOUS accepted string still re-encodes to that string (its reserved MHDR bits were zero or not: the bytes are compared)
+   \o (IF Has(e, "kbytes") /\ (e.kerr # "" \/ e.kre # e.kbytes) THEN <<"C08.reencode", "C01.back", "C06.decode">> ELSE <<>>)
    \o (IF acc /\ e.rerr = "" /\ (e.aerr # "" \/ ~Has(e, "again")) THEN <<"C08.again">>
        ELSE IF acc /\ e.rerr = "" /\ e.again # e.val THEN <<"C08.again">>
        ELSE <<>>)
